@@ -63,6 +63,15 @@ class Expression(Statement):
         self.result = result
 
 
+def _int_literal(value):
+    """value of a compile time integer (int or cohdl.Integer), None for all other objects"""
+    if isinstance(value, Integer):
+        value = value.get_value()
+    if isinstance(value, int) and not isinstance(value, bool):
+        return value
+    return None
+
+
 class CodeBlock(Statement):
     def __init__(self, stmts: list[Statement]):
         self._stmts = stmts
@@ -207,10 +216,10 @@ class Compare(Expression):
             (self._lhs, self._rhs, False),
             (self._rhs, self._lhs, True),
         ):
+            lit_value = _int_literal(lit.result)
             if (
-                isinstance(lit.result, int)
-                and not isinstance(lit.result, bool)
-                and lit.result < 0
+                lit_value is not None
+                and lit_value < 0
                 and isinstance(TypeQualifier.decay(vec.result), Unsigned)
             ):
                 cmp = self._op
@@ -315,13 +324,13 @@ class BinOp(Expression):
             # numeric_std adds an unsigned vector and a NATURAL; a negative int operand
             # is emitted as its value modulo 2**width (the result wraps at that width anyway)
             for lit, vec in ((self._lhs, self._rhs), (self._rhs, self._lhs)):
+                lit_value = _int_literal(lit.result)
                 if (
-                    isinstance(lit.result, int)
-                    and not isinstance(lit.result, bool)
-                    and lit.result < 0
+                    lit_value is not None
+                    and lit_value < 0
                     and isinstance(TypeQualifier.decay(vec.result), Unsigned)
                 ):
-                    lit.result = lit.result % 2 ** TypeQualifier.decay(vec.result).width
+                    lit.result = lit_value % 2 ** TypeQualifier.decay(vec.result).width
 
         op = BinOp.operator_string[self._op]
         return f"({self._lhs.write(scope)}) {op} ({self._rhs.write(scope)})"
